@@ -200,10 +200,92 @@ def hasBackslash : Bytes → Bool
   | [] => false
   | c :: r => c == 92 || hasBackslash r
 
-/-- `match_key` (scanning.h:1631): plain comparison when the key literal has no escape,
-    otherwise comparison of the unescaped text (the C code unescapes and compares piecewise) -/
-def matchKey (body k : Bytes) : Bool :=
-  if hasBackslash body then unescapeKey body == k else body == k
+/-- result of `match_key`: matched, not matched, or a (negative) error code of `unescape` -/
+inductive KeyCmp where
+  | eq
+  | ne
+  | err
+deriving Repr, DecidableEq, Inhabited
+
+/-- `unescape` (native/parsing.h:625), called at a backslash; the argument is what FOLLOWS the
+    backslash.  Returns the decoded bytes (1..4) and the rest, `none` for each of its error exits:
+    unknown escape letter (`_UnquoteTab` = 0), fewer than four hex digits, a low surrogate first,
+    a high surrogate that is not directly followed by `\uDC00..\uDFFF`. -/
+def unescapeOne : Bytes → Option (Bytes × Bytes)
+  | [] => none
+  | 117 :: a :: b :: c :: d :: r =>
+    if isHex a && isHex b && isHex c && isHex d then
+      let r0 := hex4 a b c d
+      if r0 < 55296 ∨ r0 > 57343 then some (utf8enc r0, r)
+      else if r0 > 56319 then none
+      else
+        match r with
+        | 92 :: 117 :: e :: f :: g :: h :: r' =>
+          if isHex e && isHex f && isHex g && isHex h then
+            let r1 := hex4 e f g h
+            if r1 < 56320 ∨ r1 > 57343 then none
+            else some (utf8enc (65536 + (r0 - 55296) * 1024 + (r1 - 56320)), r')
+          else none
+        | _ => none
+    else none
+  | e :: r =>
+    if e == 34 || e == 92 || e == 47 then some ([e], r)
+    else if e == 98 then some ([8], r)
+    else if e == 102 then some ([12], r)
+    else if e == 110 then some ([10], r)
+    else if e == 114 then some ([13], r)
+    else if e == 116 then some ([9], r)
+    else none
+
+/-- the escaped-key loop of `match_key` (scanning.h:1663): walk the key literal and the wanted key
+    together; a plain byte must equal the next key byte; an escape is decoded into a small buffer
+    which must be a prefix of what is left of the key; the first mismatch ends the comparison (what
+    follows in the literal is not even looked at); an undecodable escape that is REACHED is an
+    error.  At the end both must be exhausted. -/
+def matchLoop : Nat → Bytes → Bytes → KeyCmp
+  | 0, _, _ => .err
+  | _ + 1, [], k => if k.isEmpty then .eq else .ne
+  | _ + 1, _ :: _, [] => .ne
+  | n + 1, c :: rest, k0 :: k' =>
+    if c == 92 then
+      match unescapeOne rest with
+      | none => .err
+      | some (dec, rest') =>
+        if dec.isPrefixOf (k0 :: k') then matchLoop n rest' ((k0 :: k').drop dec.length) else .ne
+    else if c == k0 then matchLoop n rest k'
+    else .ne
+
+/-- `match_key` (scanning.h:1631): a key literal without escapes is compared with one memcmp
+    (lengths first); otherwise the piecewise loop -/
+def matchKey (body k : Bytes) : KeyCmp :=
+  if hasBackslash body then matchLoop (body.length + 1) body k
+  else if body == k then .eq else .ne
+
+/-- a key literal every escape of which `unescape` can decode (on a strictly valid string this
+    only excludes lone / wrongly ordered surrogate escapes) -/
+def keyWF : Nat → Bytes → Bool
+  | 0, _ => false
+  | _ + 1, [] => true
+  | n + 1, c :: rest =>
+    if c == 92 then
+      match unescapeOne rest with
+      | none => false
+      | some (_, rest') => keyWF n rest'
+    else keyWF n rest
+
+mutual
+/-- every object key of the value is decodable by `unescape` -/
+def keysWF : JVal → Bool
+  | .arr xs => keysWFElems xs
+  | .obj kvs => keysWFMembers kvs
+  | _ => true
+def keysWFElems : List JVal → Bool
+  | [] => true
+  | x :: xs => keysWF x && keysWFElems xs
+def keysWFMembers : List (Bytes × JVal) → Bool
+  | [] => true
+  | (k, v) :: kvs => keyWF (k.length + 1) k && keysWF v && keysWFMembers kvs
+end
 
 /-! ## the path searcher (native/get_by_path.c) -/
 
@@ -224,8 +306,11 @@ def searchObj (k : Bytes) : Nat → Bytes → Res Bytes
           | [] => .eof
           | c1 :: r2 =>
             if c1 != 58 then .inval
-            else if matchKey body k then .found r2
-            else match skipFast r2 with
+            else match matchKey body k with
+            | .eq => .found r2
+            | .err => .inval       -- the error code of `unescape` is returned as it is (a syntax error)
+            | .ne =>
+              match skipFast r2 with
               | none => .inval
               | some (_, r3) =>
                 match skipWs r3 with
